@@ -140,7 +140,7 @@ def reference_decode(enc: str, stored: bytes) -> bytes | None:
 
 class Req:
     __slots__ = ("seq", "method", "url", "range", "cls", "task", "chain", "attempt", "status", "pulled", "maxpiece", "allowed", "auto",
-                 "node", "released", "answered")
+                 "node", "released", "answered", "epoch")
 
     def __init__(self) -> None:
         self.status: int | None = None
@@ -385,6 +385,7 @@ class Origin:
         r.chain = (r.task, method, rng)
         r.allowed = policy_allows(url)
         r.auto = auto
+        r.epoch = getattr(self.loop, "ndrives", 0)
         try:
             p = urlsplit(url)
             r.node = self.nodes.get((p.scheme, p.hostname or "", p.path), -1)
@@ -510,8 +511,8 @@ class Origin:
         mode = sp.get("mode", "exact")
         if mode == "full200":
             return self._mk(req, rh, 200, {"Content-Length": str(n)}, self.stored, "eof", sp.get("piece", 3))
-        if st != 206:
-            return self._mk(req, rh, st, {}, b"error-body", "eof", 64)
+        if st != 206:  # the error page happens to be exactly as long as the requested range
+            return self._mk(req, rh, st, {}, b"E" * (b - a + 1), "eof", 64)
         if a >= n:
             return self._mk(req, rh, 416, {"Content-Range": f"bytes */{n}"}, b"", "eof", 64)
         b = min(b, n - 1)
